@@ -36,6 +36,12 @@ func (f *FeedsSignatureOrder) ValidateBasic() error {
 	signalIDs := make(map[string]struct{})
 
 	for _, id := range f.SignalIDs {
+		// The encoders left-pad a signal ID with zero bytes to 32 bytes, so an empty ID or one that
+		// starts with a zero byte would be signed under the name of a different signal ID.
+		if len(id) == 0 || id[0] == 0 {
+			return ErrInvalidSignalIDs.Wrapf("signal ID must not be empty or start with a zero byte: %q", id)
+		}
+
 		// Check for duplicate signal IDs
 		if _, exists := signalIDs[id]; exists {
 			return ErrDuplicateSignalID.Wrapf("duplicate signal ID found: %s", id)
